@@ -2,6 +2,7 @@ package main
 
 import (
 	"fmt"
+	"os"
 	"go/ast"
 	"go/token"
 	"go/types"
@@ -32,11 +33,11 @@ func (c *Ctx) checkEnumSiblings(rule string) {
 		// API calls its own helper
 		callsOwn, callsOther := false, ""
 		for _, call := range callsIn(api.Decl.Body, true) {
-			if fn := calleeOf(api.Pkg.TypesInfo, call); fn != nil && inRepo(fn) && helpers[fn.Name()] {
-				if fn.Name() == e.helper {
+			if tgt := c.enumTarget(calleeOf(api.Pkg.TypesInfo, call), helpers); tgt != "" {
+				if tgt == e.helper {
 					callsOwn = true
 				} else {
-					callsOther = fn.Name()
+					callsOther = tgt
 				}
 			}
 		}
@@ -46,11 +47,11 @@ func (c *Ctx) checkEnumSiblings(rule string) {
 		self, other := false, ""
 		var otherPos token.Pos
 		for _, call := range callsIn(hl.Decl.Body, true) {
-			if fn := calleeOf(hl.Pkg.TypesInfo, call); fn != nil && inRepo(fn) && helpers[fn.Name()] {
-				if fn == hl.Obj {
+			if tgt := c.enumTarget(calleeOf(hl.Pkg.TypesInfo, call), helpers); tgt != "" {
+				if tgt == e.helper {
 					self = true
 				} else {
-					other = fn.Name()
+					other = tgt
 					otherPos = call.Pos()
 				}
 			}
@@ -140,10 +141,39 @@ func (c *Ctx) checkEnumSiblings(rule string) {
 	}
 }
 
+// enumTarget: the enumeration helper a call ends in: the callee itself, or, for an unexported
+// function of the package that is not an enumeration helper and calls exactly one of them (a step
+// extracted from the walk, e.g. "append this branch, then walk below it"), that one.
+func (c *Ctx) enumTarget(fn *types.Func, helpers map[string]bool) string {
+	if fn == nil || !inRepo(fn) {
+		return ""
+	}
+	if helpers[fn.Name()] {
+		return fn.Name()
+	}
+	gi := c.FuncOfObj(fn)
+	if fn.Exported() || gi == nil || gi.Decl.Body == nil || !strings.HasSuffix(fn.Pkg().Path(), "/tree") {
+		return ""
+	}
+	found := map[string]bool{}
+	for _, call := range callsIn(gi.Decl.Body, true) {
+		if g := calleeOf(gi.Pkg.TypesInfo, call); g != nil && inRepo(g) && helpers[g.Name()] {
+			found[g.Name()] = true
+		}
+	}
+	if len(found) == 1 {
+		for k := range found {
+			return k
+		}
+	}
+	return ""
+}
+
 // enumDescentGuards: the three branch enumerations must descend under the same condition on the
 // branch they are called with (they differ only in what they append).
 func (c *Ctx) enumDescentGuards(rule string) {
 	ref := ""
+	var refB *bexpr
 	for _, h := range []string{"edgesRecur", "internalEdgesRecur", "tipEdgesRecur"} {
 		fi := c.Func("tree", "Tree", h)
 		if fi == nil {
@@ -151,10 +181,10 @@ func (c *Ctx) enumDescentGuards(rule string) {
 		}
 		info := fi.Pkg.TypesInfo
 		p0 := paramObj(info, fi.Decl, 0)
-		o := &canonOpts{subst: map[types.Object]string{p0: "$P"}}
 		var guard []string
+		var guardB []*bexpr
 		for _, call := range callsIn(fi.Decl.Body, true) {
-			if calleeOf(info, call) != fi.Obj {
+			if c.enumTarget(calleeOf(info, call), map[string]bool{"edgesRecur": true, "internalEdgesRecur": true, "tipEdgesRecur": true}) != h {
 				continue
 			}
 			conds, okc := c.pathConds(info, fi.Decl.Body, call, false)
@@ -185,33 +215,74 @@ func (c *Ctx) enumDescentGuards(rule string) {
 				}
 				return true
 			})
-			for _, cd := range conds {
-				if cd.Expr == nil || !mentions(info, cd.Expr, p0) {
-					continue
-				}
-				onlyParam := true
-				for lv := range loopVars {
-					if mentions(info, cd.Expr, lv) {
-						onlyParam = false
+			// locals that only name a value reached from the parameter (`below := edge.right`) read
+			// as that value; loop variables are marked so that conditions on them are told apart
+			oo := &canonOpts{subst: map[types.Object]string{p0: "$P"}}
+			// a local defined from a loop variable (`child := cur.br[i]`) is an element too
+			for changed := true; changed; {
+				changed = false
+				ast.Inspect(fi.Decl.Body, func(n ast.Node) bool {
+					as, ok := n.(*ast.AssignStmt)
+					if !ok || as.Tok != token.DEFINE || len(as.Lhs) != len(as.Rhs) {
+						return true
 					}
+					for i, l := range as.Lhs {
+						ob := identObj(info, l)
+						if ob == nil || loopVars[ob] {
+							continue
+						}
+						for lv := range loopVars {
+							if mentions(info, as.Rhs[i], lv) {
+								loopVars[ob] = true
+								changed = true
+								break
+							}
+						}
+					}
+					return true
+				})
+			}
+			for lv := range loopVars {
+				oo.subst[lv] = "$LOOPVAR"
+			}
+			for k, v := range c.localExpansionsWith(info, fi.Decl.Body, oo).subst {
+				if _, has := oo.subst[k]; !has {
+					oo.subst[k] = v
 				}
-				if !onlyParam {
+			}
+			for _, cd := range conds {
+				if cd.Expr == nil {
 					continue
 				}
-				k := c.inlineNneigh(c.inlineTip(c.toBexpr(info, cd.Expr, o))).String()
-				if cd.Neg {
-					k = "!" + k
+				txt := c.canon(info, cd.Expr, oo)
+				if !strings.Contains(txt, "$P") || strings.Contains(txt, "$LOOPVAR") {
+					continue
 				}
-				guard = append(guard, k)
+				kb := c.inlineNneigh(c.inlineTip(c.toBexpr(info, cd.Expr, oo)))
+				if cd.Neg {
+					kb = bNot(kb)
+				}
+				guard = append(guard, kb.String())
+				guardB = append(guardB, kb)
 			}
 		}
 		g := strings.Join(guard, " && ")
+		gb := bAnd(guardB...)
 		if h == "edgesRecur" {
-			ref = g
+			ref, refB = g, gb
 			c.OK(rule, "tree.Tree."+h+"/descent-guard", fi.Decl.Pos(), "descends below a branch iff "+g)
 			continue
 		}
-		c.Check(g == ref, rule, "tree.Tree."+h+"/descent-guard", fi.Decl.Pos(), "same descent guard as edgesRecur: "+g,
+		same := g == ref
+		if !same && refB != nil {
+			eq, wit, _, err := gfEquiv(gb, refB)
+			if err == nil && eq {
+				same = true
+			} else if os.Getenv("GTVERIF_DEBUG") != "" {
+				fmt.Fprintln(os.Stderr, "descent-guard equiv:", gb, "vs", refB, eq, wit, err)
+			}
+		}
+		c.Check(same, rule, "tree.Tree."+h+"/descent-guard", fi.Decl.Pos(), "same descent guard as edgesRecur: "+g,
 			fmt.Sprintf("%s descends below a branch under `%s` while edgesRecur descends under `%s`: on trees where the two differ (e.g. a node of degree 2 left by a re-rooting) the enumerations disagree", h, g, ref)).Clause = "all branches = internal + external ones"
 	}
 }
